@@ -574,6 +574,17 @@ def plans_C08(g, tier):
                                 if w + s_ >= 1 and am == 0 and all(x != 3 for x in sv) and act in ('RET', 'NONE', 'THROW_INT'):
                                     shv = g.shape(fn=fn, mk1='ANY', nwith=w, nse=s_, tform='RT', act=act, clauses=clauses, vform=True)
                                     pre.append([allow_g, sh_shadow, g.create(0, shv, obj=0, lo=1, hi=2, wmode=wm, semode=sm, actmode=am)])
+    # a side effect that destroys the mock object (the release() / "delete this" pattern): the clauses after it still run, once
+    for s_ in (1, 2, 3):
+        for pos in range(s_):
+            for other in (0, 1):
+                for fn, act in ((F1, 'RET'), (V1, 'NONE'), (F1, 'THROW_INT')):
+                    sm = [other] * 3; sm[pos] = 5
+                    for k in range(s_, 3):
+                        sm[k] = 0
+                    sh = g.shape(fn=fn, mk1='ANY', nse=s_, tform='RT', act=act)
+                    pre.append([allow_g, shadow if fn == F1 else shadow_v, g.create(0, sh, obj=0, lo=1, hi=2, semode=tuple(sm))])
+                    pre.append([allow_g, g.create(0, sh, obj=0, lo=2, hi=2, semode=tuple(sm))])     # still below its lower bound when its mock dies
     alpha = [g.call(0, F1, 1), g.call(0, F1, 2), g.call(0, V1, 1), g.call(0, V1, 2), g.call(0, R1, 1), g.call(0, R1, 2), g.call(0, CR1, 1), g.call(0, CR1, 2)]
     # "a call that throws still counts as handled" also for the sequence bookkeeping, and after an earlier no-match report that named the expectation
     spre = []
